@@ -221,7 +221,13 @@ def check_c11(tier):
                 res = run_space(exe, sp, tier, os.path.join(b.dir, "c11.out"), solution=s, deadline=per)
                 add_violations(rep, res, "C11")
                 results.append(res)
-    cover(rep, results, "; one closed space per catalogue solution: set/get on first/middle/last/unknown/empty names x values {1.5, marker, marker's neighbour(, -2.25)}, a long double space per solution with the decimal literal -12345.67L, init_param, purge, sanity, display, set_vec/get_vec with lengths {0,3(,1,30)} on every vector, and set_vec relative to the stored contents (one entry appended, last entry dropped, same contents again)")
+    # every operation sequence (nothing merged) of a parameter-store alphabet on two representative solutions
+    for s in ("euler_1d", "radiation_integrated_intensity"):
+        if s in sols:
+            ress = run_space(exe, "c11s", tier, os.path.join(b.dir, "c11s.out"), solution=s, extra=["--seqdepth", "5" if tier == "thorough" else "4"])
+            add_violations(rep, ress, "C11")
+            results.append(ress)
+    cover(rep, results, "; one closed space per catalogue solution: set/get on first/middle/last/unknown/empty names x values {1.5, marker, marker's neighbour(, -2.25)}, a long double space per solution with the decimal literal -12345.67L; all operation sequences up to depth 4 (thorough 5) of a parameter-store alphabet on euler_1d and the radiation solution, nothing merged, init_param, purge, sanity, display, set_vec/get_vec with lengths {0,3(,1,30)} on every vector, and set_vec relative to the stored contents (one entry appended, last entry dropped, same contents again)")
     rep.coverage["solutions"] = len(sols)
     rep.assumptions += ["values restricted to the alphabet; names to first/middle/last registered + unknown + empty", "the two self-test fixtures are excluded as the property states"]
     return rep.finish()
